@@ -98,26 +98,17 @@ Theorem c03_limiter_history : forall c ops, lim_inv c (fold_left (lstep c) ops (
 Proof. exact limiter_history_inv. Qed.
 Print Assumptions c03_limiter_history.
 
-(* ---- the full statements that are FALSE of the code, with witnesses ----------------------- *)
-(* Full statement: for every well-formed configuration and every history in
-   which callers behave, the monitor accepts the model's trace.  The model
-   transcribes transferAllowedToStandard literally, and one history refutes it;
-   it is a finding on the real code (known_findings/C03.json). *)
+(* ---- regression: histories that refuted the full statement before the repairs ----------- *)
 Definition full_statement : Prop :=
   forall c ops, config_wf c = true ->
     callers_run c astate0 [] 0 (model_trace c (init_state c) ops) = None ->
     mon_run c astate0 [] 0 (model_trace c (init_state c) ops) = [].
 
-Lemma refute_by : forall c ops d, config_wf c = true ->
-  callers_run c astate0 [] 0 (model_trace c (init_state c) ops) = None ->
-  mon_run c astate0 [] 0 (model_trace c (init_state c) ops) = d -> d <> [] -> ~ full_statement.
-Proof. intros c ops d W C M D F. apply D. rewrite <- M. apply F; assumption. Qed.
-
-(* regression (fixed in /repo by 4443cff and 540d954, model re-transcribed):
-   the two histories that used to refute the statement are accepted now.
-   gc() no longer closes a peer scope that holds a View reservation; the
-   allow-list retry keeps the limiter count, so the third connection of a /24
-   with prefix cap 2 is refused *)
+(* fixed in /repo by 4443cff, 540d954 and e9a9a54 (model re-transcribed): gc()
+   no longer closes a peer scope that holds a View reservation; the allow-list
+   retry keeps the limiter count, so the third connection of a /24 with prefix
+   cap 2 is refused; a SetPeer after a refused allow-list transfer charges
+   system and transient again *)
 Example gc_memory_regression :
   mon_run gc_cfg astate0 [] 0 (model_trace gc_cfg (init_state gc_cfg) gc_ops) = [].
 Proof. vm_compute. reflexivity. Qed.
@@ -127,20 +118,10 @@ Example allowlist_cap_regression :
   map (fun x => o_cls (snd x)) (model_trace al_cfg (init_state al_cfg) al_ops) = [0; 0; E_CAP].
 Proof. vm_compute. split; reflexivity. Qed.
 
-(* a refused transferAllowedToStandard leaves the connection without edges; a
-   second SetPeer is accepted and charges the peer scope only: system does not
-   count the connection *)
-Theorem c03_setpeer_retry_refuted : ~ full_statement /\
-  mon_run retry_cfg astate0 [] 0 (model_trace retry_cfg (init_state retry_cfg) retry_ops)
-  = [ERR_PROPERTY; 2; CL_USAGE; 0; 0; 0; 0; 0; 0; 1; 0; 1; 0; 0; 0; 0; 0; 0; -1; 3].
-Proof.
-  assert (E : mon_run retry_cfg astate0 [] 0 (model_trace retry_cfg (init_state retry_cfg) retry_ops)
-              = [ERR_PROPERTY; 2; CL_USAGE; 0; 0; 0; 0; 0; 0; 1; 0; 1; 0; 0; 0; 0; 0; 0; -1; 3])
-    by (vm_compute; reflexivity).
-  split; [|exact E].
-  apply (refute_by retry_cfg retry_ops _ ltac:(vm_compute; reflexivity) ltac:(vm_compute; reflexivity) E). discriminate.
-Qed.
-Print Assumptions c03_setpeer_retry_refuted.
+Example setpeer_retry_regression :
+  mon_run retry_cfg astate0 [] 0 (model_trace retry_cfg (init_state retry_cfg) retry_ops) = [] /\
+  map (fun x => o_cls (snd x)) (model_trace retry_cfg (init_state retry_cfg) retry_ops) = [0; 1; 1].
+Proof. vm_compute. split; reflexivity. Qed.
 
 (* ---- non-vacuity ------------------------------------------------------------------------------ *)
 (* the hypotheses of the theorems are met by reachable non-trivial states: a
